@@ -131,9 +131,23 @@ func runConcurrent(seed int64, tier string) ([]*Scenario, []string) {
 			}
 			n := 4 + g.intn(10)
 			for i := 0; i < n; i++ {
-				if g.chance(0.3) {
+				switch {
+				case g.chance(0.3):
 					g.concPrivateGraph(sharedUntracked)
-				} else {
+				case g.chance(0.35):
+					// products of the large shared matrix (above typical blocking / packing thresholds), forward and backward
+					bt, _ := g.do(Cmd{Op: OpTranspose, T: big1})
+					if g.isT(bt) {
+						p1, _ := g.do(Cmd{Op: OpMatMul, T: big1, U: T(bt)})
+						if g.isT(p1) && !g.Cmds[big1].Flag && g.chance(0.5) {
+							w := g.leafDistinct(g.shapeOf(bt), true, -1, 1)
+							p2, _ := g.do(Cmd{Op: OpMatMul, T: big1, U: T(w)})
+							if g.isT(p2) {
+								g.do(Cmd{Op: OpBackprop, U: T(p2)})
+							}
+						}
+					}
+				default:
 					g.concForward(shared, fc)
 				}
 			}
